@@ -95,6 +95,10 @@ def tz(v, real=False):
     raise TypeError(f"cannot lift {v!r}")
 
 
+class _NaN(Exception):
+    pass
+
+
 class SV:
     """symbolic number (z3 Int or Real term)"""
     __hash__ = None
@@ -106,6 +110,8 @@ class SV:
         return self.t.sort() == z3.RealSort()
 
     def _o(self, o):
+        if isinstance(o, float) and o != o:
+            raise _NaN()
         t = tz(o, real=self._r())
         if self._r() and t.sort() != z3.RealSort():
             t = z3.ToReal(t)
@@ -117,27 +123,45 @@ class SV:
         return self.t
 
     def __gt__(s, o):
-        ot = s._o(o)
+        try:
+            ot = s._o(o)
+        except _NaN:
+            return SB(z3.BoolVal(False))
         return SB(s._s(ot) > ot)
 
     def __lt__(s, o):
-        ot = s._o(o)
+        try:
+            ot = s._o(o)
+        except _NaN:
+            return SB(z3.BoolVal(False))
         return SB(s._s(ot) < ot)
 
     def __ge__(s, o):
-        ot = s._o(o)
+        try:
+            ot = s._o(o)
+        except _NaN:
+            return SB(z3.BoolVal(False))
         return SB(s._s(ot) >= ot)
 
     def __le__(s, o):
-        ot = s._o(o)
+        try:
+            ot = s._o(o)
+        except _NaN:
+            return SB(z3.BoolVal(False))
         return SB(s._s(ot) <= ot)
 
     def __eq__(s, o):
-        ot = s._o(o)
+        try:
+            ot = s._o(o)
+        except _NaN:
+            return SB(z3.BoolVal(False))
         return SB(s._s(ot) == ot)
 
     def __ne__(s, o):
-        ot = s._o(o)
+        try:
+            ot = s._o(o)
+        except _NaN:
+            return SB(z3.BoolVal(True))
         return SB(s._s(ot) != ot)
 
     def __add__(s, o):
